@@ -80,7 +80,7 @@ func (w *c10World) tryOpen(phys physical.Backend, keys [][]byte) (unsealed bool,
 }
 
 func TestVerif_C10_CrashInRotation(t *testing.T) {
-	rec := verifx.NewRecorder("C10", "crash-in-rotation", "a core (Shamir seal with generated shares/threshold, or the stored-key test seal) with generated history write / sys/rotate / sys/rotate/root / rekey(shares,threshold) / seal+unseal; the last operation of the history is a rotation-type operation whose physical writes are enumerated: for EVERY prefix k of them the store is materialised, a new core is started and unsealed with the shares valid before the operation, then with the shares it produced; oracle: at least one of them unseals and every secret written earlier reads back; completed operation: new shares unseal, old shares no longer do (rekey); non-trivial = crash prefix strictly inside the operation (0<k<n)")
+	rec := verifx.NewRecorder("C10", "crash-in-rotation", "a core (Shamir seal with generated shares/threshold, or the stored-key test seal) with generated history write / sys/rotate / sys/rotate/root / rekey(shares,threshold) / seal+unseal / a root-token generation attempt refused for made-up shares; the last operation of the history is a rotation-type operation whose physical writes are enumerated: for EVERY prefix k of them the store is materialised, a new core is started and unsealed with the shares valid before the operation, then with the shares it produced; oracle: at least one of them unseals and every secret written earlier reads back; completed operation: new shares unseal, old shares no longer do (rekey); non-trivial = crash prefix strictly inside the operation (0<k<n)")
 	defer rec.Flush()
 	rapid.Check(t, func(rt *rapid.T) {
 		shamir := rapid.IntRange(0, 3).Draw(rt, "sealKind") > 0
@@ -97,7 +97,40 @@ func TestVerif_C10_CrashInRotation(t *testing.T) {
 		defer func() { w.tc.shutdown() }()
 		steps := rapid.IntRange(0, 5).Draw(rt, "steps")
 		for i := 0; i < steps; i++ {
-			switch rapid.SampledFrom([]string{"write", "write", "rotate", "rotate-root", "rekey", "seal-unseal"}).Draw(rt, fmt.Sprintf("op%d", i)) {
+			switch rapid.SampledFrom([]string{"write", "write", "rotate", "rotate-root", "rekey", "seal-unseal", "rejected-root-generation"}).Draw(rt, fmt.Sprintf("op%d", i)) {
+			case "rejected-root-generation":
+				// somebody completes a root-token generation with shares that are not the genuine ones: it is refused,
+				// and must leave the seal's key material alone (a later share-less rotation persists under it)
+				if !shamir {
+					continue
+				}
+				c := tc.c
+				_ = c.GenerateRootCancel(tc.ctx)
+				if err := c.GenerateRootInit(tc.ctx, strings.Repeat("A", TokenPrefixLength+TokenLength), "", GenerateStandardRootTokenStrategy); err != nil {
+					t.Fatalf("harness: generate-root init: %v", err)
+				}
+				conf, err := c.GenerateRootConfiguration(tc.ctx)
+				if err != nil || conf == nil {
+					t.Fatalf("harness: generate-root config: %v", err)
+				}
+				produced := false
+				for j := 0; j < w.thr; j++ {
+					f := rapid.SliceOfN(rapid.Byte(), len(w.keys[0]), len(w.keys[0])).Draw(rt, fmt.Sprintf("forged%d.%d", i, j))
+					f[len(f)-1] = byte(j + 1)
+					res, err := c.GenerateRootUpdate(tc.ctx, f, conf.Nonce, GenerateStandardRootTokenStrategy)
+					if err == nil && res != nil && res.EncodedToken != "" {
+						produced = true
+					}
+					if err != nil {
+						break
+					}
+				}
+				_ = c.GenerateRootCancel(tc.ctx)
+				w.logf("root generation with made-up shares -> token=%v", produced)
+				if produced {
+					rec.Violation(rt, "root-token-generated-from-made-up-shares", map[string]any{"history": w.log}, "a root token was generated from made-up shares")
+					return
+				}
 			case "write":
 				k := fmt.Sprintf("k%d", rapid.IntRange(0, 3).Draw(rt, "key"))
 				w.write(k, fmt.Sprintf("v%d-%d", i, len(w.log)))
